@@ -111,7 +111,7 @@ func (s *session) event(raw, class, verdict string) {
 	e := &sim.Event{
 		Session: s.spec.Session, Sim: os.Getpid(), Tool: os.Getppid(),
 		Ord: s.ord, Raw: raw, Class: class, Mode: s.mode, Verdict: verdict,
-		Reload: s.reload, T: int64(time.Since(s.start)), Joined: s.joined,
+		Reload: s.reload, T: time.Now().UnixNano(), Joined: s.joined,
 		Fault: s.curFault,
 	}
 	sim.AppendEvent(s.spec.Events, e)
@@ -350,7 +350,7 @@ func (s *session) writeChunked(text, chunk string) {
 // if one is planned for this command.
 func (s *session) ciscoReply(line, output string) {
 	b := s.bannerAt()
-	if b == nil || s.spec.Type != "ios" || s.reload != "pending" && b.Kind != "aborted" {
+	if b == nil || s.spec.Type != "ios" || s.reload != "pending" || b.Kind == "aborted" {
 		s.w("%s\r\n%s%s", line, output, s.prompt())
 		return
 	}
@@ -374,9 +374,10 @@ func (s *session) ciscoReply(line, output string) {
 		s.writeChunked(bt, b.Chunk)
 		s.w("%s\r\n%s%s", line[off:], output, p)
 	case b.Form == "after-no-prompt":
+		// The banner interrupts before the line end of the echo.
 		s.w("%s", line)
 		s.writeChunked(bt, b.Chunk)
-		s.w("%s%s", output, p)
+		s.w("\r\n%s%s", output, p)
 	case b.Form == "after-own-prompt":
 		s.w("%s", line)
 		s.writeChunked(bt+"\r\n"+p, b.Chunk)
@@ -393,6 +394,24 @@ func (s *session) ciscoReply(line, output string) {
 	default:
 		s.w("%s\r\n%s%s", line, output, p)
 	}
+}
+
+// ciscoReplyMode replies to a command that changes the mode: a banner
+// with own prompt shown before the echo still carries the old prompt.
+func (s *session) ciscoReplyMode(line, output string, change func()) {
+	if b := s.bannerAt(); b != nil && s.spec.Type == "ios" && s.reload == "pending" && b.Kind != "aborted" &&
+		b.Form == "before-own-prompt" {
+		s.writeChunked(bannerText(b.Kind)+"\r\n"+s.prompt(), b.Chunk)
+		if b.Chunk == "prompt-delayed" {
+			s.flush()
+			time.Sleep(15 * time.Millisecond)
+		}
+		change()
+		s.w("%s\r\n%s%s", line, output, s.prompt())
+		return
+	}
+	change()
+	s.ciscoReply(line, output)
 }
 
 func (s *session) reloadDialogue(line string) {
@@ -496,13 +515,11 @@ func (s *session) ciscoLoop() {
 				s.ciscoReply(line, "")
 			case line == "configure terminal":
 				s.event(line, class, "accepted")
-				s.mode = "config"
-				s.dev.EnterConfig()
 				out := ""
 				if sp.Type == "ios" {
 					out = "Enter configuration commands, one per line.  End with CNTL/Z.\r\n"
 				}
-				s.ciscoReply(line, out)
+				s.ciscoReplyMode(line, out, func() { s.mode = "config"; s.dev.EnterConfig() })
 			case line == "sh pager":
 				s.event(line, class, "accepted")
 				if sp.PagerOn {
@@ -550,7 +567,27 @@ func (s *session) ciscoLoop() {
 			case line == "reload cancel" && sp.Type == "ios":
 				s.event(line, class, "accepted")
 				s.reload = "none"
-				s.w("%s\r\n%s%s", line, bannerText("aborted"), s.prompt())
+				// The ABORTED banner is asynchronous too: it may come
+				// before or after the prompt of the command.
+				form, chunk := "", "whole"
+				if b := s.bannerAt(); b != nil && b.Kind == "aborted" {
+					form, chunk = b.Form, b.Chunk
+				}
+				switch form {
+				case "after-prompt":
+					s.w("%s\r\n%s", line, s.prompt())
+					s.flush()
+					time.Sleep(8 * time.Millisecond)
+					s.writeChunked(bannerText("aborted")+"\r\n"+s.prompt(), chunk)
+				case "after-own-prompt":
+					s.w("%s", line)
+					s.writeChunked(bannerText("aborted")+"\r\n"+s.prompt(), chunk)
+					s.w("\r\n%s", s.prompt())
+				default:
+					s.w("%s\r\n", line)
+					s.writeChunked(bannerText("aborted"), chunk)
+					s.w("%s", s.prompt())
+				}
 			case line == "write memory":
 				s.writeMemory(line)
 			default:
@@ -563,9 +600,7 @@ func (s *session) ciscoLoop() {
 		switch {
 		case line == "end":
 			s.event(line, class, "accepted")
-			s.mode = "exec"
-			s.dev.LeaveConfig()
-			s.ciscoReply(line, "")
+			s.ciscoReplyMode(line, "", func() { s.mode = "exec"; s.dev.LeaveConfig() })
 		case strings.HasPrefix(line, "do reload in ") && sp.Type == "ios":
 			s.reloadDialogue(line)
 		case class == "session-setting":
